@@ -500,7 +500,12 @@ class RainbowDQN(RLAlgorithm):
                     action = self.get_action(
                         obs, training=False, action_mask=action_mask
                     )
+                    if not hasattr(env, "num_envs"):
+                        # Un-vectorised environment: unbatch the action, batch the flags
+                        action = action[0]
                     obs, reward, done, trunc, info = env.step(action)
+                    if not hasattr(env, "num_envs"):
+                        done, trunc = [done], [trunc]
                     step += 1
                     scores += np.array(reward)
                     for idx, (d, t) in enumerate(zip(done, trunc)):
